@@ -26,3 +26,13 @@ VARIANTS.append(M('C11', 'revert-fix-ip-attribute', E(GT, "        self.ip = sel
 VARIANTS += [
     M('C11', 'snapshot-stores-mtime', E(GT, "                            self.snapshot[path] = stat.st_ctime", "                            self.snapshot[path] = stat.st_mtime"), rule='C11-SNAPSHOT', key='snapshot'),
 ]
+
+UT = 'tdda/referencetest/utils.py'
+VARIANTS += [
+    M('C11', 'fallback-encoding-recorded-after-return', E(UT, "                    lines = f.readlines()\n                    filetype.encoding = 'iso-8859-1'\n                    return lines\n", "                    return f.readlines()\n                filetype.encoding = 'iso-8859-1'\n"),
+      rule='C11-ENCODING', key='protected_readlines'),
+    M('C11', 'fallback-encoding-not-recorded', E(UT, "                    lines = f.readlines()\n                    filetype.encoding = 'iso-8859-1'\n                    return lines\n", "                    lines = f.readlines()\n                    return lines\n"),
+      rule='C11-ENCODING', key='protected_readlines'),
+    M('C11', 'refactor-fallback-encoding-recorded-after-with', E(UT, "                    lines = f.readlines()\n                    filetype.encoding = 'iso-8859-1'\n                    return lines\n", "                    lines = f.readlines()\n                filetype.encoding = 'iso-8859-1'\n                return lines\n"),
+      kind='refactor'),
+]
